@@ -98,6 +98,7 @@ type raceHook struct {
 	limit    time.Time
 	entered  atomic.Bool // the target reached the window (loop test passed, about to park)
 	left     atomic.Bool // the target went on to park
+	leftAt   time.Time   // ... at this (virtual) instant
 	doneIn   atomic.Bool // its context became done while it was in the window
 	sent     atomic.Bool // the wake-up for its context was sent
 	sentIn   atomic.Bool // ... while it was in the window
@@ -134,6 +135,7 @@ func (h *raceHook) fn(point string, args ...any) {
 				}
 			}
 		}
+		h.leftAt = time.Now()
 		h.left.Store(true)
 	case "pool.acquire.broadcasted":
 		if h.entered.Load() {
@@ -283,9 +285,16 @@ func poolWakeupRace(run *mon.Run, t *testing.T, rc raceCase) {
 			if hook.sentIn.Load() {
 				run.Observe("pool_race_wakeup_sent_before_park", 1)
 			}
-		} else if hook.entered.Load() && hook.sentPark.Load() {
-			run.Observe("pool_race_context_done_after_park", 1)
-			produced = true
+		} else {
+			// virtual time moves only once every goroutine waits: a target that went on to park before the instant its
+			// context is done was parked when that instant came
+			if hook.left.Load() && hook.leftAt.Before(ws[rc.target].limit) {
+				run.Observe("pool_race_context_done_after_park", 1)
+				produced = true
+			}
+			if hook.sentPark.Load() { // (somebody else's wake-up at the same instant may get the target out before its own is sent)
+				run.Observe("pool_race_wakeup_sent_after_park", 1)
+			}
 		}
 		run.Case(fmt.Sprintf("%s|target=%d|d=%v|extra=%v|produced=%v", e.name, rc.target, rc.d, rc.extra, produced), produced)
 		if rc.idx < 4 {
